@@ -1,6 +1,6 @@
 INIT ScenInit
 NEXT ScenNext
 CONSTANTS
-  Sizes = {1, 2, 50, 1000, 12345}
+  Sizes = {1, 2, 50, 128, 1000, 1024, 3840, 12345}
 INVARIANT EmitScen
 CHECK_DEADLOCK FALSE
